@@ -9,6 +9,7 @@ import (
 	"runtime"
 	"strings"
 	"sync"
+	"sync/atomic"
 	"testing"
 	"time"
 
@@ -204,7 +205,10 @@ func (o c11Op) run() c11Res {
 		f, e4 := otp.ParseDecimal64BigEndian(dec)
 		in, e5 := otp.HexInputToOCRA(fmt.Sprintf("%016x", o.Counter), fmt.Sprintf("%x", o.Key), fmt.Sprintf("%040x", o.Counter), hx+"00", hx)
 		k, e6 := otp.DecodeSecret(strings.ToLower(secret))
-		return c11Res{S: fmt.Sprintf("%x %v|%x %v|%x|%x %v|%s|%x %v|%x %x %x %x %x %v|%x %v|%s %d %d", a, e1, b, e2, c, d, e3, e, f, e4,
+		// a long question (the number written three times over: 3..60 digits, beyond any machine word) and a long hex timestamp
+		long := "1" + dec + dec + dec
+		b2, e7 := otp.ParseDecimalChallengeRFC6287(long)
+		return c11Res{S: fmt.Sprintf("%x %v|%x %v|%x %v|%x|%x %v|%s|%x %v|%x %x %x %x %x %v|%x %v|%s %d %d", a, e1, b, e2, b2, e7, c, d, e3, e, f, e4,
 			in.Counter, in.Challenge, in.Password, in.SessionInfo, in.Timestamp, e5, k, e6,
 			otp.AlgorithmFromStr(otp.Algorithm(o.Algo).String()).String(), otp.DigitsFromStr(fmt.Sprint(o.Digits)).Int(), otp.Digits(o.Digits).Int())}
 	case "list":
@@ -674,6 +678,8 @@ func checkC11Sat(c c11SatCase) verdict {
 	var calls int64
 	var wg sync.WaitGroup
 	start := make(chan struct{})
+	progress := make([]atomic.Int64, c.Goroutines)
+	var stop atomic.Bool
 	for g := 0; g < c.Goroutines; g++ {
 		wg.Add(1)
 		go func(g int) {
@@ -688,11 +694,11 @@ func checkC11Sat(c c11SatCase) verdict {
 				}
 			}()
 			<-start
-			deadline := time.Now().Add(budget)
 			n := int64(0)
 			for i := 0; ; i++ {
 				got := c.Op.run()
 				n++
+				progress[g].Add(1)
 				if got != want {
 					mu.Lock()
 					if firstErr == "" {
@@ -701,7 +707,7 @@ func checkC11Sat(c c11SatCase) verdict {
 					mu.Unlock()
 					break
 				}
-				if i%64 == 63 && !time.Now().Before(deadline) {
+				if i%16 == 15 && stop.Load() {
 					break
 				}
 			}
@@ -711,6 +717,27 @@ func checkC11Sat(c c11SatCase) verdict {
 		}(g)
 	}
 	close(start)
+	// the case ends when the budget has passed AND every goroutine has been inside the call several times (on a loaded
+	// machine goroutines start late: all of them must have been running for the call to be saturated), at the latest after 8 s
+	t0 := time.Now()
+	for {
+		time.Sleep(5 * time.Millisecond)
+		el := time.Since(t0)
+		all := true
+		for g := range progress {
+			if progress[g].Load() < 8 {
+				all = false
+				break
+			}
+		}
+		mu.Lock()
+		failed := firstErr != ""
+		mu.Unlock()
+		if failed || (el >= budget && all) || el > 8*time.Second {
+			break
+		}
+	}
+	stop.Store(true)
 	wg.Wait()
 	recorders["C11/saturation"].Label("calls", calls)
 	labels := []string{"kind=" + c.Op.Kind, fmt.Sprintf("procs=%d", c.Procs), fmt.Sprintf("goroutines=%d", c.Goroutines)}
@@ -727,7 +754,8 @@ var c11Sat = newPart("C11", "saturation",
 	"64 (first pass over the kinds) or 33..64 goroutines at GOMAXPROCS in {2,4,16} run one and the same rapid-drawn call (each kind of operation in turn: HOTP/TOTP/OCRA generation and validation incl. wrong codes and failing calls, suite lookups, URL generation, helpers) in a tight loop with no voluntary yield for 3 x (goroutines/procs) scheduler rounds, so that nearly all goroutines are preempted inside that call at the same time (-race build); oracles: every result equals what the call returns alone, no panic, no race report; all cases non-trivial; the label 'calls' counts library calls made; a failure stores the case, the schedule cannot be replayed",
 	checkC11Sat)
 
-var c11SatKinds = []string{"hotp-val", "totp-val", "ocra-val", "hotp-gen", "totp-gen", "ocra-gen", "lookup", "url", "hotp-url", "helpers", "list", "hotp-err", "totp-err", "ocra-err"}
+// kinds ending in "+" are validations of the RIGHT code (a capacity that fails closed shows as a refused right code)
+var c11SatKinds = []string{"hotp-val+", "totp-val+", "ocra-val+", "hotp-val", "totp-val", "ocra-val", "hotp-gen", "totp-gen", "ocra-gen", "lookup", "url", "hotp-url", "helpers", "list", "hotp-err", "totp-err", "ocra-err"}
 
 // satGoroutines: the first pass over the kinds (all of the quick tier) uses the largest number the property names, 64,
 // which exceeds any capacity a smaller number would exceed; later passes vary it.
@@ -743,6 +771,10 @@ func TestC11_Saturation(t *testing.T) {
 	c11Sat.rapid(t, ev.Pick(len(c11SatKinds), 8*len(c11SatKinds)), func(t *rapid.T) c11SatCase {
 		kind := c11SatKinds[idx%len(c11SatKinds)] // every kind in turn: the quick tier covers each once
 		idx++
-		return c11SatCase{Op: drawC11OpOfKind(t, kind), Goroutines: satGoroutines(t, idx), Procs: rapid.SampledFrom([]int{2, 4, 16}).Draw(t, "procs")}
+		op := drawC11OpOfKind(t, strings.TrimSuffix(kind, "+"))
+		if strings.HasSuffix(kind, "+") {
+			op.Dist = 0
+		}
+		return c11SatCase{Op: op, Goroutines: satGoroutines(t, idx), Procs: rapid.SampledFrom([]int{2, 4, 16}).Draw(t, "procs")}
 	})
 }
